@@ -25,7 +25,8 @@ from obligations.shape_tables import (model_attrs, alf_run, ALF, M, Tmpl, Clu, C
 from obligations.C11 import MI
 
 MG = 'phylib/io/merge.py'
-FLOOR = 22
+FLOOR = 13          # decided obligations below this = the analysis lost its footing (exit 2); clean tree: 36
+RULES = ('C14.M1', 'C14.S1', 'C14.U1', 'C14.U2')          # every obligation group must report (holds / violated / undecided): a group that vanishes silently is an analysis error
 AKF = {'amp': 1, 'ka': 1, 'F': 1}
 EXPLANATION = ('shape engine over the EphysAlfCreator methods with the model methods inline (dimension with the unit factor, index spaces of '
                'loop indices and tables, provenance of the channel order); sym walk of the per-probe loops of the exporter and of the merger '
@@ -144,6 +145,17 @@ def s1_rawind(ctx, rule='C14.S1'):
     ctx.check(isinstance(a, Arr) and a.axes == (Chan,), rule, co, 'channels.rawInd axis', 'channels.rawInd has one entry per channel', 'channels.rawInd is %s' % a)
     for r in S.reports:
         ctx.violated(rule, r.fi, r.node, '[make_channel_objects] %s' % r.msg)
+
+
+def blanked(ctx, repo, fi, arr, rule, what):
+    """The saved per-cluster array has NaN on the ids without spikes: the shape engine records `x[self.model.nan_idx] = nan` on the array (also through a
+    helper that receives it). Absent: definite only when the method and the helpers it calls never mention nan_idx."""
+    if isinstance(arr, Arr) and getattr(arr, 'blanked', None):
+        return ctx.holds(rule, fi, '%s of ids without spikes are NaN (rows of nan_idx are blanked on the saved array)' % what, what)
+    mentions = any(isinstance(n, ast.Attribute) and n.attr == 'nan_idx' for f_ in repo.transparent_closure(fi) for n in ast.walk(f_.node))
+    if not mentions:
+        return ctx.violated(rule, fi, fi.name, '%s of empty ids are not blanked' % what)
+    return ctx.undecided(rule, fi, '%s: nan_idx is used, but the blanking of the saved array was not recognised' % what)
 
 
 def m1_model_side(ctx):
@@ -311,8 +323,7 @@ def run(ctx):
                   'clusters.peakToTrough is %s, expected milliseconds per cluster id' % a)
     else:
         ctx.undecided('C14.U2', mc, 'clusters.peakToTrough not typed (%s)' % a)
-    nanp = [x for x in mc.nodes(ast.Assign) if isinstance(x.targets[0], ast.Subscript) and unparse(x.targets[0].slice) == 'self.model.nan_idx' and unparse(x.value) == 'np.nan']
-    ctx.check(bool(nanp), 'C14.U2', mc, nanp[0] if nanp else 'make_cluster_objects', 'durations of ids without spikes are NaN', 'durations of empty ids are not blanked')
+    blanked(ctx, repo, mc, saved2.get('clusters.peakToTrough.npy', (None, None))[1], 'C14.U2', 'durations')
     a = saved2.get('clusters.amps.npy', (None, None))[1]
     if isinstance(a, Arr) and isinstance(a.elem, Q):
         ctx.check(a.elem.d().get('F') == 1, 'C14.U2', mc, 'clusters.amps (cluster objects)', 'the cluster amplitudes written by make_cluster_objects carry the unit factor',
@@ -320,12 +331,14 @@ def run(ctx):
     a = saved2.get('clusters.channels.npy', (None, None))[1]
     ctx.check(isinstance(a, Arr) and a.axes == (Clu,) and isinstance(a.elem, Ix) and a.elem.space is Chan, 'C14.U2', mc, 'clusters.channels', 'clusters.channels = peak channel per cluster id', 'clusters.channels is %s' % a)
     # make_depths
+    cd_any = None
     for nofeat in (False, True):
         S, saved3, md = alf_run(repo, 'make_depths', attrs=model_attrs(no_features=nofeat))
         lab = 'no feature file' if nofeat else 'features present'
         for r in S.reports:
             ctx.violated('C14.U2', r.fi, r.node, '[make_depths, %s] %s' % (lab, r.msg))
         cd = saved3.get('clusters.depths.npy', (None, None))[1]
+        cd_any = cd if isinstance(cd, Arr) else cd_any
         sd = saved3.get('spikes.depths.npy', (None, None))[1]
         if isinstance(cd, Arr) and isinstance(cd.elem, Q) and not any(is_unk(x) for x in cd.axes):
             ctx.check(cd.axes == (Clu,) and cd.elem.d() == {'um': 1} and 'xy:1' in cd.elem.tags, 'C14.U2', md, 'clusters.depths (%s)' % lab,
@@ -341,8 +354,7 @@ def run(ctx):
         else:
             ctx.undecided('C14.U2', md, 'spikes.depths not typed (%s)' % sd)
     md = repo.lookup_method(cls, 'make_depths')
-    nand = [x for x in md.nodes(ast.Assign) if isinstance(x.targets[0], ast.Subscript) and unparse(x.targets[0].slice) == 'self.model.nan_idx' and unparse(x.value) == 'np.nan']
-    ctx.check(bool(nand), 'C14.U2', md, nand[0] if nand else 'make_depths', 'depths of ids without spikes are NaN', 'depths of empty ids are not blanked')
+    blanked(ctx, repo, md, cd_any, 'C14.U2', 'depths')
     br = [i for i in md.nodes(ast.If) if Pat().any(['self.model.sparse_features is None', 'not self.model.sparse_features is None', 'self.model.sparse_features is not None',
                                                    'not (self.model.sparse_features is None)', 'not (self.model.sparse_features is not None)'], i.test)]
     anyf = [i for i in md.nodes(ast.If)]
